@@ -19,7 +19,7 @@ Token level, programs of any size (the models are `QV.Shared.Print`, `QV.Shared.
 * `C04_debug_total`: the debug serializer is a total function (by construction of the model: `write(f, true)`
   never takes an error branch) and AGREES with the strict serializer whenever that succeeds.
 
-## Proved for the kinds of `apiKind` (33 kinds) — `C04_roundtrip_api`, see below
+## Proved for the kinds of `apiKind` (34 kinds) — `C04_roundtrip_api`, see below
 
 ## Proved for the kinds of `plainKind` (23 kinds without expressions)
 
@@ -105,7 +105,8 @@ theorem C04_roundtrip_partial (F : NumFmt) (is : List Instruction)
 (the plain kinds, gate applications with arbitrary expression parameters and modifiers, SET-FREQUENCY, SET-PHASE,
 SET-SCALE, SHIFT-FREQUENCY, SHIFT-PHASE, DELAY with any duration with and without frame names, RAW-CAPTURE into
 a region not named `i`, CAPTURE and PULSE: their waveform parameters come back sorted by key, values in normal
-form — `normInvocation`), NumTok hypothesis on their literals: the program serializes, and the
+form — `normInvocation`; CALL with identifier, memory-reference and immediate arguments — negative, imaginary,
+complex, adjacent — read back bit for bit), NumTok hypothesis on their literals: the program serializes, and the
 tokens parse back to the listing in which every expression `e` is replaced by its normal form `norm e`
 (`normInstr`) — which builds the program whose containers are the images of the original containers.
 `norm e` has the same value as `e` under every assignment (`C04_norm_value`): the reparsed program is equal to
@@ -168,7 +169,9 @@ example : ∃ ts, printProgramTokens stdFmt (build
        .delay ⟨.call .sin (.var "t"), [], [.fixed 0]⟩,
        .delay ⟨.number ⟨0x3FF0000000000000, 0xC000000000000000⟩, ["a\"b"], []⟩,
        .rawCapture ⟨false, ⟨"ro", [.fixed 0]⟩, .number ⟨0x4000000000000000, 0⟩, ⟨"iq", 0⟩⟩,
-       .pulse ⟨false, ⟨"rf", [.fixed 0]⟩, ⟨"lib/wf", [("b", .number ⟨0xBFF0000000000000, 0⟩), ("a", .pi)]⟩⟩]).listing
+       .pulse ⟨false, ⟨"rf", [.fixed 0]⟩, ⟨"lib/wf", [("b", .number ⟨0xBFF0000000000000, 0⟩), ("a", .pi)]⟩⟩,
+       .call ⟨"foo", [.immediate ⟨0x3FF0000000000000, 0⟩, .immediate ⟨0, 0xC000000000000000⟩,
+          .immediate ⟨0xBFF0000000000000, 0x4000000000000000⟩, .identifier "x", .memoryReference ⟨"i", 0⟩]⟩]).listing
       = .ok ts :=
   let ⟨ts, h, _⟩ := C04_roundtrip_api stdFmt _ (by decide) (by decide) (by decide) (by decide)
   ⟨ts, h⟩
